@@ -12,7 +12,7 @@ import (
 func init() {
 	register(&propDef{
 		ID:       "C11",
-		Explain:  "Decided for coalesce.Queue (structural necessary conditions): queue/coalesced are touched only under the embedded mutex; Insert refuses after close before touching the queue; the wake-up token is a non-blocking send issued after (never before) a successful insert into a channel of capacity >= 1, `closed` is unbuffered, never sent on and closed at most once under the lock; Next's blocking select waits on exactly ctx.Done, inserted and closed and returns ctx.Err on cancellation; closed is reported only when Len()==0 (drain-before-closed); representation-level order/count: a pending key is only incremented by 1, a new key is appended at the tail with count 0, Next returns queue[0] with the count looked up before its delete, advances by exactly one and deletes that key on every path.",
+		Explain:  "Decided for coalesce.Queue (structural necessary conditions): queue/coalesced are touched only under the embedded mutex; Insert refuses after close before touching the queue; the wake-up token is a non-blocking send issued after (never before) a successful insert into a channel of capacity >= 1, `closed` is unbuffered, never sent on and closed at most once under the lock; Next's blocking select waits on exactly ctx.Done, inserted and closed and returns ctx.Err on cancellation; closed is reported only when Len()==0 (drain-before-closed); representation-level order/count: a pending key is only incremented by 1, a new key is appended at the tail with count 0, Next returns queue[0] with the count looked up before its delete, advances by exactly one and deletes that key on every path. Round-3 addition: the representation (queue, coalesced) is written only by the constructor, insert, next and unexported helpers reachable only from those two.",
 		NotCover: "conservation and order under all producer/consumer interleavings, fairness among consumers, absence of lost wake-ups as a liveness statement (only its structural preconditions are decided)",
 		Run:      runC11,
 	})
